@@ -312,6 +312,21 @@ func retryRules(c *Ctx) {
 					}
 					if e == ssa.Value(q.fn.Params[1]) {
 						prmEdge = i
+					} else if srcs := P.Sources(e); len(srcs) >= 1 {
+						// a copy of the parameter (through its spill cell or a local of the same name)
+						only := true
+						for _, sv := range srcs {
+							if sv != ssa.Value(q.fn.Params[1]) && sv != ssa.Value(ph) {
+								if k, isK := constInt(sv); !isK || k != 300*1000*1000 {
+									only = false
+								}
+							}
+						}
+						if only {
+							if _, isK := constInt(e); !isK {
+								prmEdge = i
+							}
+						}
 					}
 				}
 				if len(ph.Edges) != 2 || defEdge < 0 || prmEdge < 0 {
